@@ -1,4 +1,7 @@
+import Hannibal.Props.C15IWCurrent
 import Hannibal.Props.C15Current
 #print axioms Hannibal.C15_holds
 #print axioms Hannibal.C15_current
 #print axioms Hannibal.wellWired15_current
+#print axioms Hannibal.C15iw_holds
+#print axioms Hannibal.C15iw_current
